@@ -20,6 +20,8 @@ CASES_QUICK = [
     ("PUT", "TEXIT", "NONE", "held"), ("PUT", "TEXIT", "NONE", "idle"), ("GETD", "TEXIT", "NONE", "held"),
     ("PUT", "TEXIT", "NONE", "paused"), ("DELC", "TEXIT", "NONE", "held"),
     ("PUT", "TDELETE", "NONE", "held"), ("GETD", "TDELETE", "NONE", "held"), ("DELC", "TDELETE", "NONE", "held"),
+    # a channel asked for again while (or after) it is deleted: what the deletion discards does not come back
+    ("DELC", "GETC", "NONE", "backlog"), ("DELC", "GETC", "NONE", "held"),
 ]
 CASES_THOROUGH = CASES_QUICK + [
     ("PUT", "GETD", "DELC", "held"), ("PUT", "GETD", "DELC", "idle"), ("PUT", "GETD", "PAUSE", "held"),
@@ -28,6 +30,8 @@ CASES_THOROUGH = CASES_QUICK + [
     ("PUT", "PAUSE", "TEXIT", "held"), ("PUT", "GETD", "TDELETE", "held"), ("PUT", "DELC", "TDELETE", "idle"),
     ("PAUSE", "DELC", "PUT", "held"), ("GETD", "PAUSE", "NONE", "nochan"), ("PUT", "GETD", "NONE", "nochan"),
     ("GETD", "DELC", "PUT", "idle"), ("PAUSE", "TDELETE", "NONE", "held"), ("UNPAUSE", "TEXIT", "PUT", "paused"),
+    ("DELC", "GETC", "PUT", "backlog"), ("DELC", "GETC", "GETC", "backlog"), ("DELC", "GETC", "TEXIT", "backlog"),
+    ("PUT", "GETC", "NONE", "nochan"),
 ]
 
 VEC = ["m1c", "m2c", "m1d", "m2d", "m1tq", "m2tq", "m2acked", "m2failed", "c_in_map", "d_in_map", "paused", "mcount",
@@ -68,7 +72,7 @@ def realizable(ops, sched):
     return True
 
 
-def enumerate_schedules(ctx, tuples, join=True):
+def enumerate_schedules(ctx, tuples, join=True, per_group=None):
     """join: the model variant that has the shape of the code under test (FALSE: GetChannel as first found)."""
     cases = []
     for (a, b, c, sit) in tuples:
@@ -97,7 +101,12 @@ def enumerate_schedules(ctx, tuples, join=True):
             g["alternatives"].append({"porder": porder, "vec": vec})
         if n == 0:
             raise Inconclusive("no schedule printed for %s|%s|%s/%s" % (a, b, c, sit))
-        cases.extend(groups.values())
+        gs = [groups[k] for k in sorted(groups)]
+        if per_group and len(gs) > per_group:
+            import random
+            random.Random(ctx.seed * 7919 + len(cases)).shuffle(gs)
+            gs = gs[:per_group]
+        cases.extend(gs)
     return cases
 
 
@@ -189,7 +198,7 @@ def classes(ops, kind):
         return {"C03"}
     if kind == "count":
         return {"C13"}
-    if kind == "undeleted":
+    if kind in ("undeleted", "resurrected"):
         return {"C08"}
     return {"C01"}
 
@@ -228,7 +237,7 @@ def judge(ctx, prop, obs):
                     bad.append(("lost-restart", "the topic's paused flag was %s when the shutdown was requested and is %s after the restart"
                                 % (sit == "paused", o.get("paused"))))
                 for m in o.get("acked_at_exit") or []:
-                    owed = ["c"] if (m == "m1" and sit in ("held", "paused")) else (o["known_at_put"] if m == "m2" else [])
+                    owed = ["c"] if (m == "m1" and sit in ("held", "paused", "backlog")) else (o["known_at_put"] if m == "m2" else [])
                     for x in owed:
                         if x in deleted or x not in (o.get("known_at_exit") or []):
                             continue
@@ -245,7 +254,7 @@ def judge(ctx, prop, obs):
             if o.get("topic_exists"):
                 acked = (["m1"] if sit != "idle" else []) + (["m2"] if m2_acked else [])
                 for m in acked:
-                    owed = ["c"] if (m == "m1" and sit in ("held", "paused")) else (o["known_at_put"] if m == "m2" else [])
+                    owed = ["c"] if (m == "m1" and sit in ("held", "paused", "backlog")) else (o["known_at_put"] if m == "m2" else [])
                     for x in owed:
                         if x in deleted:
                             continue
@@ -270,9 +279,13 @@ def judge(ctx, prop, obs):
                                             "while the topic was still paused" % x))
                 if "TDELETE" not in ops and o.get("message_count") != len(acked):
                     bad.append(("count", "topic message_count=%s but %d publishes were acknowledged" % (o.get("message_count"), len(acked))))
+                delc_ok = any(o["status"].get(k) == 200 for k, op in (("A", c["opA"]), ("B", c["opB"]), ("C", c["opC"])) if op == "DELC")
                 for x in deleted:
-                    if x in (o.get("channels") or []) and "GETD" not in ops and x == "c":
+                    if x in (o.get("channels") or []) and "GETC" not in ops and x == "c":
                         bad.append(("undeleted", "channel c still listed after its deletion was acknowledged"))
+                if sit == "backlog" and delc_ok and "m1" in (final.get("c") or []):
+                    bad.append(("resurrected", "m1 sat in channel c's queue when the deletion of c was requested; the deletion was "
+                                "acknowledged, and a channel c delivered m1 afterwards"))
             elif "TDELETE" not in ops:
                 bad.append(("lost", "topic t is gone although nobody deleted it"))
         for kind, text in bad:
@@ -289,10 +302,17 @@ def judge(ctx, prop, obs):
             else:
                 ctx.drift("topic ops %s schedule %s: NsqdTopic predicts completion, real daemon: %s" % (name, sched, bad[0][1][:200]))
             continue
+        # the order in which the pump walks its channel list is the Go map's: a schedule TLC derived for the other order
+        # cannot be forced in this run (the property predicates above were judged all the same)
+        po = o.get("porder", "")
+        if not any(a["porder"].startswith(po) or po.startswith(a["porder"]) for a in c["alternatives"]):
+            ctx.notes["tpair_order_mismatch"] = ctx.notes.get("tpair_order_mismatch", 0) + 1
+            conclusive -= 1
+            continue
         if o.get("unexpected"):
             ctx.drift("topic ops %s schedule %s: %s" % (name, sched, o["unexpected"]))
             continue
-        alts = [a for a in c["alternatives"] if a["porder"] == o.get("porder", "")]
+        alts = [a for a in c["alternatives"] if a["porder"] == po]
         if not alts:
             ctx.drift("topic ops %s schedule %s: the pump copied in order '%s', NsqdTopic has %s" % (
                 name, sched, o.get("porder"), sorted(a["porder"] for a in c["alternatives"])))
@@ -327,12 +347,12 @@ def judge(ctx, prop, obs):
     return conclusive
 
 
-def run_tpairs(ctx, prop, tuples=None, sample=None, only=None, join=True):
+def run_tpairs(ctx, prop, tuples=None, sample=None, only=None, join=True, per_group=None):
     tuples = tuples or (CASES_QUICK if ctx.quick else CASES_THOROUGH)
     if only:
         tuples = [t for t in tuples if only(t)]
     refute(ctx)
-    cases = enumerate_schedules(ctx, tuples, join=join)
+    cases = enumerate_schedules(ctx, tuples, join=join, per_group=per_group or (40 if ctx.quick else 300))
     if sample and len(cases) > sample:
         import random
         rng = random.Random(ctx.seed)
